@@ -95,7 +95,7 @@ mutual
           obtain ⟨hcd, g1⟩ := h1
           obtain ⟨hde, g2⟩ := h2
           subst hcd; subst hde
-          exact ⟨rfl, eqD_trans ok num (some (env.fields c)) xs ys zs hx.1 hx.2 hy.1 hy.2 hz.1 hz.2 g1 g2⟩
+          exact ⟨rfl, eqD_trans ok num (objSh env c) xs ys zs hx.1 hx.2 hy.1 hy.2 hz.1 hz.2 g1 g2⟩
         | _ => simp [eq] at h2
       | _ => simp [eq] at h1
   termination_by structural x
@@ -292,7 +292,7 @@ mutual
             subst hcd; subst hce
             simp only [lt, rankCmp_same hkz, rankCmp_same hkz', if_true]
             simp only [comparable, Bool.and_eq_true] at hx hy hz
-            exact ltItems_congr_left ok num (some (env.fields c)) xs ys zs hx.1 hx.2 hy.1 hy.2 hz.2 h.2
+            exact ltItems_congr_left ok num (objSh env c) xs ys zs hx.1 hx.2 hy.1 hy.2 hz.2 h.2
           | _ => simp [kindOf] at hkz
         | _ => simp [eq] at h
     · have hkz' : kindOf y ≠ kindOf z := hk ▸ hkz
